@@ -167,6 +167,22 @@ def oracle(case):
     if ref is None:
         note('rdkit_rejects_model')
         return
+    # RDKit re-perceives aromaticity when it sanitises a molecule; where its own reading of the
+    # independently built model differs from the model (fused small rings it calls aromatic),
+    # the molecule is outside the domain in which a round trip can preserve bond orders
+    refg = nx.Graph()
+    for a in ref.GetAtoms():
+        if a.GetSymbol() != 'H':
+            refg.add_node(a.GetIdx(), element=a.GetSymbol(), charge=a.GetFormalCharge(),
+                          h=sum(1 for nb in a.GetNeighbors() if nb.GetSymbol() == 'H') + a.GetTotalNumHs())
+    for b in ref.GetBonds():
+        i, j = b.GetBeginAtomIdx(), b.GetEndAtomIdx()
+        if i in refg and j in refg:
+            o = b.GetBondTypeAsDouble()
+            refg.add_edge(i, j, order=o if o == 1.5 else int(o))
+    if not molgen.same_mol(model_g, refg):
+        note('rdkit_reads_model_differently_out_of_domain')
+        return
     cg, fine = sut(resolve, case['input'])
     graphs = [('resolved', fine), ('permuted node order', permuted(fine, case['perm_seed']))]
     # (a) round trip
